@@ -7,7 +7,7 @@
    (see design.d/C04.md): they are NOT theorems yet. *)
 From Coq Require Import List NArith ZArith QArith Qcanon Bool.
 From ACB Require Import Base.Outcome Base.QcExtra Base.Arith Model.Tx Model.Ledger Model.Sfl
-     Model.DeltaList Spec.AvgCost Proofs.C01Refine Proofs.C04Inv Proofs.C04Sum.
+     Model.DeltaList Spec.AvgCost Proofs.C01Refine Proofs.C04Inv Proofs.C04Sum Proofs.C04Reject.
 Import ListNotations.
 
 (* No emitted row shows a negative share balance, all-affiliate balance or
@@ -43,6 +43,30 @@ Check C04_prefix_correct : forall init txs ds r,
   Forall (fun t => valid_tx t = true) txs ->
   map obs_of ds = spec_rows (spec_init init) (effective ds).
 Print Assumptions C04_prefix_correct.
+
+(* "A history free of these is never rejected": under exact arithmetic, when
+   the registered flag is a function of the affiliate (regof) and the opening
+   position is well formed, EVERY rejection of a run belongs to the classes the
+   property lists - over-sale (at the row, or found ahead inside the window of
+   a loss sale), return of capital above the cost base, return of capital or
+   cost-base adjustment on a registered affiliate, whole-number reverse split
+   leaving a fraction, declared superficial loss on a non-loss or contradicting
+   the computed one.  The internal sanity rejections (all-affiliate balance
+   below the affiliate's, ACB on a registered affiliate, ...) are unreachable.
+   Each listed class is raised by the model exactly on its stated condition
+   (by definition of the arm that raises it). *)
+Theorem C04_only_listed_rejections : forall (regof : N -> bool) init txs ds r,
+  regof default_id = false ->
+  run exact init txs = (ds, Some (SRej r)) ->
+  init_ok' init -> Forall (fun t => af_reg (t_af t) = regof (af_id (t_af t))) txs ->
+  listed r.
+Proof. intros regof init txs ds r Hd. exact (C04Reject.run_rej_listed regof Hd init txs ds r). Qed.
+Check C04_only_listed_rejections : forall (regof : N -> bool) init txs ds r,
+  regof default_id = false ->
+  run exact init txs = (ds, Some (SRej r)) ->
+  init_ok' init -> Forall (fun t => af_reg (t_af t) = regof (af_id (t_af t))) txs ->
+  listed r.
+Print Assumptions C04_only_listed_rejections.
 
 (* Non-vacuity: an over-sale after two accepted rows is rejected with the
    two rows as prefix (exact and dec). *)
